@@ -147,15 +147,25 @@ Theorem C07_sorted_members_are_the_members : forall (A : Type) (l : list (str * 
 Proof. intros A l. split; [apply sort_members_is_perm | apply sort_members_sorted]. Qed.
 Print Assumptions C07_sorted_members_are_the_members.
 
+(* a tree that was written, read back and is written again (a checkpoint behind a checkpoint, a second run of the same flow)
+   gives the same line again: the sorting is idempotent on every tree a Python value can give (no duplicate keys) *)
+Theorem C07_sorted_line_stable_under_rewriting : forall j, jnodup j ->
+  jsort (jsort j) = jsort j /\ sorted_text (jsort j) = sorted_text j.
+Proof. intros j Hj. split; [apply jsort_idem; exact Hj | apply sorted_text_idem; exact Hj]. Qed.
+Print Assumptions C07_sorted_line_stable_under_rewriting.
+
 Example C07_sort_keys_nonvacuous :
   let a := [([98], JInt 1); ([97], JObj [([122], JNull); ([65], JBool true)])] in
   let b := [([97], JObj [([122], JNull); ([65], JBool true)]); ([98], JInt 1)] in
-  NoDup (keys json a) /\ Permutation a b /\ sorted_text (JObj a) = sorted_text (JObj b) /\ jprint (JObj a) <> jprint (JObj b).
+  NoDup (keys json a) /\ Permutation a b /\ sorted_text (JObj a) = sorted_text (JObj b) /\ jprint (JObj a) <> jprint (JObj b)
+  /\ jnodup (JObj a) /\ jsort (JObj a) <> JObj a.
 Proof.
-  cbv zeta. split; [|split; [|split]].
+  cbv zeta. split; [|split; [|split; [|split; [|split]]]].
   - repeat constructor; cbn; intuition discriminate.
   - apply perm_swap.
   - vm_compute. reflexivity.
+  - vm_compute. discriminate.
+  - cbn. repeat split; repeat constructor; cbn; intuition discriminate.
   - vm_compute. discriminate.
 Qed.
 
